@@ -619,11 +619,14 @@ class Session(AbstractSession):
 
         s = 0
         index_v = 0
+        dest_start_v = 0
         while s < len(spans) - 1:
             s, index_i, index_v = ops._apply_spans_concat_2(spans, src_index, src_values,
                                                             dest_index, dest_values,
                                                             max_index_i, max_value_i,
-                                                            separator, delimiter, s, index_v)
+                                                            separator, delimiter, s, dest_start_v)
+            # offsets written by the next batch continue from everything written so far
+            dest_start_v += index_v
 
             if index_i > 0 or index_v > 0:
                 dest.indices.write_part(dest_index[:index_i])
